@@ -37,6 +37,32 @@ _PRISTINE = {}
 _GLOBALS0 = {}
 
 
+def pristine(f):
+    """run f() in a forked child, so that nothing it does to module-level state survives, and - when called before this
+    process has used the library - so that it starts from the import-time state"""
+    import os, pickle
+    r, w = os.pipe()
+    pid = os.fork()
+    if pid == 0:
+        try:
+            os.close(r)
+            out = pickle.dumps(f())
+        except BaseException as e:      # noqa
+            out = pickle.dumps(('exc', 'harness:' + type(e).__name__))
+        os.write(w, out)
+        os._exit(0)
+    os.close(w)
+    buf = b''
+    while True:
+        c = os.read(r, 1 << 16)
+        if not c:
+            break
+        buf += c
+    os.close(r)
+    os.waitpid(pid, 0)
+    return pickle.loads(buf)
+
+
 class Kind(HSystem):
     """events: list of (name, fn(o, s) -> value, judged)"""
 
@@ -63,6 +89,11 @@ class Kind(HSystem):
         return self.make()
 
     def fresh(self):
+        if not self._base:
+            # before this process touches the library: the reference answers, each from its own pristine child
+            for ev in self.order:
+                if self.evs[ev][2]:
+                    self._base[ev] = pristine(lambda: self.solo(ev))
         # shared module-level instances touched by an earlier exploration in this process go back to their import-time state
         import importlib
         for (mn, an), d in _PRISTINE.items():
@@ -93,9 +124,18 @@ class Kind(HSystem):
         return r
 
     def base(self, ev):
-        if ev not in self._base:
-            self._base[ev] = self.run_hist((ev,))
+        """what the event returns on a fresh, equally configured object in a process where nothing else of the
+        library has been used since import: computed in a forked child of the (pristine) parent image"""
         return self._base[ev]
+
+    def solo(self, ev):
+        # only the object the event talks to is constructed (the sibling for sibling events, else the object alone)
+        is_sib = ev.startswith('sibling')
+        st = {'o': None if is_sib else self._obj(), 's': self.sibling() if (is_sib and self.sibling) else None}
+        try:
+            return ('ok', self.apply(st, ev))
+        except Exception as e:
+            return ('exc', type(e).__name__)
 
     def judge(self, ctx, hist, ev, res, st):
         g = library_globals()
@@ -152,7 +192,7 @@ def kinds(tier):
     from crysp.salsa20 import Salsa20
     from crysp.chacha import Chacha
     K = {}
-    sib_call = lambda name: (name, lambda o, s: s(m3), False)
+    sib_call = lambda name: (name, lambda o, s: s(m3), True)
 
     def upd(blk):
         def f(o, s):
@@ -193,7 +233,7 @@ def kinds(tier):
     b2ev = [('h(m1)', lambda o, s: o(m1), True), ('h(m2)', lambda o, s: o(m2), True), ('h(m1,outlen=20)', lambda o, s: o(m1, outlen=20), True),
             ('h(m1,salt)', lambda o, s: o(m1, salt=b's' * (o.wsize // 4)), True), ('h(m1,fanout=2,depth=2,inner=9)', lambda o, s: o(m1, fanout=2, depth=2, inner=9), True),
             ('h(m1,outlen=99)!', lambda o, s: o(m1, outlen=99), True),
-            sib_call('sibling-h(m3)'), ('sibling-h(m1,outlen=7)', lambda o, s: s(m1, outlen=7), False)]
+            sib_call('sibling-h(m3)'), ('sibling-h(m1,outlen=7)', lambda o, s: s(m1, outlen=7), True)]
     K['Blake2s'] = Kind('Blake2s', lambda: Blake2(256), b2ev + [('update-unfinished', blake_upd(b'x' * 64), False)], sibling=lambda: Blake2(512))
     K['Blake2b'] = Kind('Blake2b', lambda: Blake2(512), b2ev + [('update-unfinished', blake_upd(b'x' * 128), False)], sibling=lambda: Blake2(256))
     K['blake2b'] = Kind('blake2b', None, b2ev, sibling=lambda: Blake2(256), singleton=('crysp.blake', 'blake2b'))
@@ -203,11 +243,13 @@ def kinds(tier):
     K['Skein-256'] = Kind('Skein-256', lambda: Skein(256, 256), sev, sibling=lambda: Skein(512, 512))
     K['Skein-256-out520'] = Kind('Skein-256-out520', lambda: Skein(256, 520), sev[:3] + sev[4:], sibling=lambda: Skein(256, 256))
     K['Skein-mac'] = Kind('Skein-mac', lambda: Skein(256, 256, key=b'key', prs=b'prs', nonce=b'n'), sev, sibling=lambda: Skein(256, 256, key=b'other'))
+    K['Skein-schema'] = Kind('Skein-schema', lambda: Skein(256, 256), [sev[0], sev[1], sev[4]], sibling=lambda: Skein(256, 256, schema=b'CRSP', version=2))
+    K['Skein-schema-rev'] = Kind('Skein-schema-rev', lambda: Skein(512, 512, schema=b'CRSP', version=2, key=b'k'), [sev[0], sev[1], sev[4]], sibling=lambda: Skein(512, 512, key=b'k'))
     K['Skein-tree'] = Kind('Skein-tree', lambda: Skein(256, 256, Yl=1, Yf=1, Ym=2), [sev[0], sev[1], sev[4]], sibling=lambda: Skein(256, 256, Yl=2, Yf=1, Ym=3))
     K['HMAC-MD5'] = Kind('HMAC-MD5', lambda: HMAC(MD5(), b'key'),
                          [('mac(m1)', lambda o, s: o(m1), True), ('mac(m2)', lambda o, s: o(m2), True),
                           ('inner-hash-h(m3)', lambda o, s: o.h(m3), False), ('inner-hash-update-unfinished', lambda o, s: o.h.update(b'x' * 64), False),
-                          ('sibling-mac(m3)', lambda o, s: s(m3), False)], sibling=lambda: HMAC(MD5(), b'x' * 100))
+                          ('sibling-mac(m3)', lambda o, s: s(m3), True)], sibling=lambda: HMAC(MD5(), b'x' * 100))
     K['HMAC-SHA256'] = Kind('HMAC-SHA256', lambda: HMAC(SHA2(256), b'k' * 70),
                             [('mac(m1)', lambda o, s: o(m1), True), ('mac(m2)', lambda o, s: o(m2), True),
                              ('inner-hash-h(m1,bitlen=20)', lambda o, s: o.h(m1, bitlen=20), False),
@@ -226,7 +268,8 @@ def kinds(tier):
     def cipher_events(n):
         return [('enc', lambda o, s: o.enc(ramp(n, 3, 1)), True), ('dec', lambda o, s: o.dec(ramp(n, 5, 2)), True), ('enc(zero)', lambda o, s: o.enc(bytes(n)), True),
                 ('enc(short)!', lambda o, s: o.enc(ramp(n - 1)), True), ('dec(long)!', lambda o, s: o.dec(ramp(n + 1)), True),
-                ('sibling-enc', lambda o, s: s.enc(ramp(n, 7, 3)), False)]
+                ('sibling-enc', lambda o, s: s.enc(ramp(len(s.enc.__self__.K.bytes()) if False else (s.blocksize // 8), 7, 3)), True),
+                ('sibling-dec', lambda o, s: s.dec(ramp(s.blocksize // 8, 9, 5)), True)]
     K['AES-128'] = Kind('AES-128', lambda: AES(ramp(16)), cipher_events(16), sibling=lambda: AES(ramp(32, 3)))
     K['AES-256'] = Kind('AES-256', lambda: AES(ramp(32)), cipher_events(16), sibling=lambda: AES(ramp(16, 3)))
     K['DES'] = Kind('DES', lambda: DES(ramp(8, 5, 1)), cipher_events(8), sibling=lambda: DES(ramp(8, 3, 9)))
@@ -245,7 +288,7 @@ def kinds(tier):
         return [('enc(m1)', lambda o, s: o.enc(m1), True), ('enc(2 blocks)', lambda o, s: o.enc(ramp(2 * n, 3, 1)), True), ('enc(empty)', lambda o, s: o.enc(b''), True),
                 ('dec(good)', lambda o, s: o.dec(ct(o, 'a', m1)), True), ('dec(good 2 blocks)', lambda o, s: o.dec(ct(o, 'b', ramp(2 * n, 3, 1))), True),
                 ('dec(malformed)!', lambda o, s: o.dec(b'\xee' * (2 * n if cbc else n)), True), ('dec(not whole blocks)!', lambda o, s: o.dec(b'y' * (n + 1)), True),
-                ('sibling-enc', lambda o, s: s.enc(m3), False)]
+                ('sibling-enc', lambda o, s: s.enc(m3), True)]
     for nm, mk, n, cbc, sb in (('ECB-AES', lambda: Mo.ECB(AES(ramp(16))), 16, False, lambda: Mo.ECB(AES(ramp(16, 3)), pad=X923)),
                                ('ECB-DES', lambda: Mo.ECB(DES(ramp(8, 3, 1))), 8, False, lambda: Mo.ECB(DES(ramp(8, 5, 2)))),
                                ('CBC-AES', lambda: Mo.CBC(AES(ramp(16)), ramp(16, 9, 4)), 16, True, lambda: Mo.CBC(AES(ramp(16)), bytes(16))),
@@ -253,7 +296,10 @@ def kinds(tier):
         K[nm] = Kind(nm, mk, mode_events(mk, n, cbc), sibling=sb)
     K['CTR-AES'] = Kind('CTR-AES', lambda: Mo.CTR(AES(ramp(16)), ramp(16, 5, 250)),
                         [('enc(m1)', lambda o, s: o.enc(m1), True), ('enc(40B)', lambda o, s: o.enc(ramp(40, 3, 2)), True), ('dec(40B)', lambda o, s: o.dec(ramp(40, 5, 1)), True),
-                         ('enc(empty)', lambda o, s: o.enc(b''), True), ('sibling-enc', lambda o, s: s.enc(m3), False)], sibling=lambda: Mo.CTR(AES(ramp(16)), bytes(16)))
+                         ('enc(empty)', lambda o, s: o.enc(b''), True), ('sibling-enc', lambda o, s: s.enc(m3), True)], sibling=lambda: Mo.CTR(AES(ramp(16)), bytes(16)))
+    K['CTR-AES-wrap'] = Kind('CTR-AES-wrap', lambda: Mo.CTR(AES(ramp(16)), ramp(8, 5, 250) + b'\xff' * 7 + b'\xfe'),
+                             [('enc(m1)', lambda o, s: o.enc(m1), True), ('enc(40B)', lambda o, s: o.enc(ramp(40, 3, 2)), True), ('dec(70B)', lambda o, s: o.dec(ramp(70, 5, 1)), True),
+                              ('sibling-enc', lambda o, s: s.enc(m3), True)], sibling=lambda: Mo.CTR(AES(ramp(16)), b'\xff' * 16))
     K['CTS_ECB-AES'] = Kind('CTS_ECB-AES', lambda: Mo.CTS_ECB(AES(ramp(16))),
                             [('enc(20B)', lambda o, s: o.enc(ramp(20, 3, 1)), True), ('enc(32B)', lambda o, s: o.enc(ramp(32, 3, 1)), True), ('dec(23B)', lambda o, s: o.dec(ramp(23, 5, 1)), True),
                              ('enc(40B)', lambda o, s: o.enc(ramp(40, 7, 1)), True)])
@@ -269,7 +315,7 @@ def kinds(tier):
     for nm, cls in (('Salsa20', Salsa20), ('Chacha', Chacha)):
         ev = [('enc(v1,m1)', lambda o, s: o.enc(B1(v1), m1), True), ('enc(v2,70B)', lambda o, s: o.enc(B1(v2), ramp(70, 3, 1)), True),
               ('dec(v1,70B)', lambda o, s: o.dec(B1(v1), ramp(70, 5, 1)), True), ('keystream-suspended', dangling, False),
-              ('sibling-enc', lambda o, s: s.enc(B1(v1), m3), False)]
+              ('sibling-enc', lambda o, s: s.enc(B1(v1), m3), True)]
         if nm == 'Salsa20':
             ev.append(('hash(64B)', lambda o, s: o.hash(ramp(64, 3, 1)), True))
         K[nm] = Kind(nm, (lambda c: (lambda: c(B1(ramp(32)), 8)))(cls), ev, sibling=(lambda c: (lambda: c(B1(ramp(16, 5)), 12)))(cls))
@@ -299,7 +345,7 @@ def depth(tier):
 
 def subchecks():
     return [hsub('histories', systems, depth,
-                 bound='48 object kinds (SHA1/SHA0/SHA2/SHA3/Keccak/MD4/MD5/MD6 x3/Blake x2/Blake2 x2/Skein x4/HMAC x2/TLSH/Nilsimsa/AES x2/DES/TDEA/Serpent/Threefish x2/ECB x2/CBC x2/CTR/CTS x2/Salsa20/Chacha/crc and the module singletons keccak_256, blake256, blake2b, blake2s, tlsh), each with 4-9 events (one-shot calls incl. per-call options and calls that raise; perturbations: unfinished updates, duplex, suspended keystream generators, sibling instances, shared inner objects); all histories to depth 3 (thorough 5), deduplicated by the canonical state of object + sibling; library globals compared with their import-time snapshot after every transition')]
+                 bound='51 object kinds (SHA1/SHA0/SHA2/SHA3/Keccak/MD4/MD5/MD6 x3/Blake x2/Blake2 x2/Skein x4/HMAC x2/TLSH/Nilsimsa/AES x2/DES/TDEA/Serpent/Threefish x2/ECB x2/CBC x2/CTR/CTS x2/Salsa20/Chacha/crc and the module singletons keccak_256, blake256, blake2b, blake2s, tlsh), each with 4-9 events (one-shot calls incl. per-call options and calls that raise; perturbations: unfinished updates, duplex, suspended keystream generators, sibling instances, shared inner objects); all histories to depth 3 (thorough 5), deduplicated by the canonical state of object + sibling; library globals compared with their import-time snapshot after every transition')]
 
 
 RULE = 'BFS over call histories per object kind; an observation is the returned bytes or the exception class; distinct_nontrivial counts distinct (kind,event,result) observations'
